@@ -246,17 +246,21 @@ nni_dialer_init(nni_dialer *d, nni_sock *s, nni_sp_tran *tran)
 
 	rv = d->d_ops.d_init(dp, &d->d_url, d);
 
-	if (rv == 0) {
-		rv = nni_sock_add_dialer(s, d);
-	}
-
+	// The id must exist before the socket can see (and close) the
+	// endpoint, or a concurrent socket close would leave a closed
+	// endpoint registered under its id.
 	if (rv == 0) {
 		nni_mtx_lock(&dialers_lk);
 		rv = nni_id_alloc32(&dialers, &d->d_id, d);
 		nni_mtx_unlock(&dialers_lk);
+	}
+
+	if (rv == 0) {
+		rv = nni_sock_add_dialer(s, d);
 		if (rv != 0) {
-			// do not leave it on the socket's list
-			nni_sock_remove_dialer(d);
+			nni_mtx_lock(&dialers_lk);
+			nni_id_remove(&dialers, d->d_id);
+			nni_mtx_unlock(&dialers_lk);
 		}
 	}
 
